@@ -5,7 +5,7 @@
 -/
 import FcGen.Tables
 import FcProofs.Lemmas.PyLite
-import FcProofs.Lemmas.VtkRead
+import FcProofs.Lemmas.Base64
 namespace Fc
 open PyLite
 
